@@ -7,6 +7,14 @@ require (
 	golang.org/x/image v0.18.0
 )
 
-require github.com/mandykoh/go-parallel v0.1.0 // indirect
+require (
+	golang.org/x/mod v0.22.0 // indirect
+	golang.org/x/sync v0.10.0 // indirect
+)
+
+require (
+	github.com/mandykoh/go-parallel v0.1.0 // indirect
+	golang.org/x/tools v0.29.0
+)
 
 replace github.com/mandykoh/prism => /repo
